@@ -20,7 +20,8 @@ MUTANTS = {"C04": [("MUT_Sandbox_fragile_capture.cfg", "Contained")],
                    ("MUT_Sandbox_tracer_not_reentrant.cfg", "Restored"),
                    ("MUT_Sandbox_shared_sleep_patcher.cfg", "Restored")],
            "C15": [("MUT_Sandbox_phantom_line.cfg", "OutputLedger"), ("MUT_Sandbox_lifo_inputs.cfg", "InputFifo"),
-                   ("MUT_Sandbox_falsy_inputs_ignored.cfg", "InputFifo")]}
+                   ("MUT_Sandbox_falsy_inputs_ignored.cfg", "InputFifo"),
+                   ("MUT_Sandbox_closed_stream_loses_output.cfg", "OutputLedger")]}
 
 
 def _without_c(v):
